@@ -143,7 +143,7 @@ def action_table(generated_text: str) -> str:
 
 
 PRELUDE = """From Coq Require Import ZArith.
-From Pegen Require Import Base.Values Runtime.Tokenizer Sem.Peg Runtime.Exec Runtime.MiniPy Proofs.ExecInv.
+From Pegen Require Import Base.Values Runtime.Tokenizer Sem.Peg Runtime.Exec Runtime.MiniPy Proofs.ExecInv Proofs.LocRun.
 Definition KINDS : kinds := %s.
 Definition EXACT : list (string * N) := %s.
 Definition TDICT : list (string * N) := %s.
@@ -186,8 +186,6 @@ Definition rcase_wf (c : rcase) : bool :=
   match run_gen g fresh with inl m => ir_wf m | inr _ => true end.
 (* the hypotheses of C15_action_receives_the_span_of_the_match on every method whose alternatives ask for LOCATIONS:
    it captures the start position at entry and is not a loop helper *)
-Definition meth_loc_ok (m : meth) : bool :=
-  if existsb a_locations (m_alts m) then m_locations m && negb (m_loop m) else true.
 Definition rcase_loc (c : rcase) : bool :=
   let '(g, fresh, tbl, ci, inputs) := c in
   match run_gen g fresh with inl m => forallb meth_loc_ok (i_meths m) | inr _ => true end.
